@@ -16,9 +16,39 @@ pub struct Out {
     pub code: Option<i32>,
     pub stdout: String,
     pub stderr: String,
+    /// killed by the harness after it made no progress at all for 15 s (see `run_cli`)
+    pub hung: bool,
 }
 
+/// CPU time (user + system, clock ticks) of a process and whether every one of its threads is sleeping
+fn cpu_and_sleeping(pid: u32) -> Option<(u64, bool)> {
+    let stat = std::fs::read_to_string(format!("/proc/{}/stat", pid)).ok()?;
+    // fields after the closing bracket of the command name
+    let rest = &stat[stat.rfind(')')? + 2..];
+    let f: Vec<&str> = rest.split(' ').collect();
+    let cpu = f.get(11)?.parse::<u64>().ok()? + f.get(12)?.parse::<u64>().ok()?;
+    let mut all_sleeping = true;
+    for t in std::fs::read_dir(format!("/proc/{}/task", pid)).ok()? {
+        let t = t.ok()?;
+        let ts = std::fs::read_to_string(t.path().join("stat")).unwrap_or_default();
+        if let Some(p) = ts.rfind(')') {
+            let state = ts[p + 2..].chars().next().unwrap_or('?');
+            if state != 'S' {
+                all_sleeping = false;
+            }
+        }
+    }
+    Some((cpu, all_sleeping))
+}
+
+/// Run the CLI to its end. Verdict on a run that does not end is by progress, not by wall clock: the run is
+/// "hung" when, for 15 s on end, every thread of the process sleeps and its CPU time does not advance, while
+/// both of its output pipes are being drained and it has no input to wait for. A process that is still
+/// computing after 900 s is an error of the harness (inconclusive), never a verdict.
 pub fn run_cli(cli: &str, args: &[String], wrapper: &[String]) -> Result<Out, String> {
+    use std::io::Read;
+    use std::process::Stdio;
+    use std::time::{Duration, Instant};
     let mut cmd = if wrapper.is_empty() {
         Command::new(cli)
     } else {
@@ -30,11 +60,69 @@ pub fn run_cli(cli: &str, args: &[String], wrapper: &[String]) -> Result<Out, St
     cmd.args(args);
     cmd.env_remove("RUST_LOG");
     cmd.env("RUST_BACKTRACE", "0");
-    let out = cmd.output().map_err(|e| format!("cannot run {}: {}", cli, e))?;
+    cmd.stdin(Stdio::null()).stdout(Stdio::piped()).stderr(Stdio::piped());
+    let mut child = cmd.spawn().map_err(|e| format!("cannot run {}: {}", cli, e))?;
+    let mut so = child.stdout.take().expect("piped stdout");
+    let mut se = child.stderr.take().expect("piped stderr");
+    let t_out = std::thread::spawn(move || {
+        let mut b = Vec::new();
+        let _ = so.read_to_end(&mut b);
+        b
+    });
+    let t_err = std::thread::spawn(move || {
+        let mut b = Vec::new();
+        let _ = se.read_to_end(&mut b);
+        b
+    });
+    let start = Instant::now();
+    let mut pause = Duration::from_micros(500);
+    let mut last_cpu: Option<u64> = None;
+    let mut idle_since = Instant::now();
+    let mut hung = false;
+    let status = loop {
+        match child.try_wait() {
+            Ok(Some(st)) => break Some(st),
+            Ok(None) => {}
+            Err(e) => return Err(format!("cannot wait for {}: {}", cli, e)),
+        }
+        std::thread::sleep(pause);
+        if pause < Duration::from_millis(50) {
+            pause *= 2;
+        }
+        if start.elapsed() > Duration::from_secs(5) {
+            match cpu_and_sleeping(child.id()) {
+                Some((cpu, true)) if last_cpu == Some(cpu) => {
+                    if idle_since.elapsed() > Duration::from_secs(15) {
+                        hung = true;
+                        let _ = child.kill();
+                        let _ = child.wait();
+                        break None;
+                    }
+                }
+                Some((cpu, _)) => {
+                    last_cpu = Some(cpu);
+                    idle_since = Instant::now();
+                }
+                None => {
+                    idle_since = Instant::now();
+                }
+            }
+        }
+        if start.elapsed() > Duration::from_secs(900) {
+            let _ = child.kill();
+            let _ = child.wait();
+            let _ = t_out.join();
+            let _ = t_err.join();
+            return Err(format!("{} {:?} is still computing after 900 s", cli, args));
+        }
+    };
+    let stdout = t_out.join().unwrap_or_default();
+    let stderr = t_err.join().unwrap_or_default();
     Ok(Out {
-        code: out.status.code(),
-        stdout: String::from_utf8_lossy(&out.stdout).to_string(),
-        stderr: String::from_utf8_lossy(&out.stderr).to_string(),
+        code: status.and_then(|s| s.code()),
+        hung,
+        stdout: String::from_utf8_lossy(&stdout).to_string(),
+        stderr: String::from_utf8_lossy(&stderr).to_string(),
     })
 }
 
@@ -93,6 +181,14 @@ pub fn c15(cfg: &Cfg, rep: &mut Report) {
         }
         c15_case(cfg, rep, cfg.case_seed(i), &cli, &dir, &wrapper);
     }
+    if !cfg.flag("only_malformed") {
+        for i in 0..cfg.get_usize("wide_cases", if cfg.thorough { 4 } else { 1 }) {
+            if rep.too_many() {
+                break;
+            }
+            c15_wide(cfg, rep, cfg.case_seed(2_000_000 + i), &cli, &dir, &wrapper);
+        }
+    }
     let _ = std::fs::remove_dir_all(&dir);
 }
 
@@ -131,7 +227,22 @@ fn c15_known_probes(_cfg: &Cfg, rep: &mut Report, cli: &str, dir: &Path) {
 
 pub fn c15_case(cfg: &Cfg, rep: &mut Report, case_seed: u64, cli: &str, dir: &Path, wrapper: &[String]) {
     let nm = cfg.get_usize("nmax", if cfg.thorough { 7 } else { 5 });
-    let mut case = small_case(case_seed, nm);
+    let case = small_case(case_seed, nm);
+    c15_run(cfg, rep, case_seed, case, cli, dir, wrapper, false);
+}
+
+/// wide frameworks (9 to 11 loosely coupled statements, hundreds of two-valued models): long model streams
+pub fn c15_wide(cfg: &Cfg, rep: &mut Report, case_seed: u64, cli: &str, dir: &Path, wrapper: &[String]) {
+    let mut rng = Rng::new(case_seed ^ 0x31DE);
+    let n = cfg.get_usize("wide_n", 9 + rng.below(if cfg.thorough { 3 } else { 2 }));
+    let case = crate::sem::wide_case(case_seed, n);
+    rep.count("wide_cases", 1);
+    rep.max("wide_case_two_valued_models", case.sem.two_valued().len() as u64);
+    c15_run(cfg, rep, case_seed, case, cli, dir, wrapper, true);
+}
+
+#[allow(clippy::too_many_arguments)]
+fn c15_run(cfg: &Cfg, rep: &mut Report, case_seed: u64, mut case: SmallCase, cli: &str, dir: &Path, wrapper: &[String], wide: bool) {
     let mut rng = Rng::new(case_seed ^ 0xC15);
     if !printable(&case) {
         // re-draw labels without line breaks, keep the structure
@@ -148,7 +259,8 @@ pub fn c15_case(cfg: &Cfg, rep: &mut Report, case_seed: u64, cli: &str, dir: &Pa
     let file = dir.join(format!("case-{}.adf", case_seed));
     std::fs::write(&file, &case.text).expect("write case file");
     let grounded = case.sem.grounded();
-    let complete = case.sem.complete();
+    // (a wide framework has 3^n complete interpretations: its complete section is not requested)
+    let complete = if wide { Vec::new() } else { case.sem.complete() };
     let stable = case.sem.stable();
     let twoval = case.sem.two_valued();
     // statement order per sort flag
@@ -184,9 +296,12 @@ pub fn c15_case(cfg: &Cfg, rep: &mut Report, case_seed: u64, cli: &str, dir: &Pa
             .collect();
         let line = |v: &Vec<Val>| line_of(v, &names_in_order);
         // flags
-        let mut flags: Vec<&str> = SEM_FLAGS.iter().copied().filter(|_| rng.chance(2, 5)).collect();
+        let mut flags: Vec<&str> = SEM_FLAGS.iter().copied().filter(|f| rng.chance(2, 5) && !(wide && *f == "--com")).collect();
         if flags.is_empty() {
-            flags.push(*rng.pick(&SEM_FLAGS));
+            flags.push(*rng.pick(&SEM_FLAGS[2..]));
+        }
+        if wide && !flags.contains(&"--twoval") && rng.chance(3, 4) {
+            flags.push("--twoval");
         }
         let heu: Option<&str> = if rng.chance(1, 2) { Some(*rng.pick(&HEUS)) } else { None };
         let mut args: Vec<String> = vec!["--lib".into(), lib.into()];
@@ -229,6 +344,14 @@ pub fn c15_case(cfg: &Cfg, rep: &mut Report, case_seed: u64, cli: &str, dir: &Pa
         };
         rep.count("invocations", 1);
         rep.count(&format!("lib.{}", lib), 1);
+        if out.hung {
+            rep.violation(
+                "cli-hangs",
+                format!("{:?}: every thread of the process slept without using any CPU time for 15 s (killed); {} bytes had been printed", args, out.stdout.len()),
+                replay,
+            );
+            return;
+        }
         if out.code != Some(0) {
             let sig = if out.code == Some(97) {
                 "cli-valgrind-report"
